@@ -3,6 +3,8 @@ import RustCcModel.Proofs.WeakInv7
 namespace RustCc
 open World
 
+variable {ex : Bool}
+
 theorem wslots_set_count (l : List (Option Id)) (i : Nat) (v old : Option Id) (x : Id) (h : l[i]? = some old) :
     (optIds (l.set i v)).count x + old.toList.count x = (optIds l).count x + v.toList.count x := by
   have hi : i < l.length := by
@@ -24,9 +26,9 @@ theorem weakDrop_metas_congr (w1 w2 : World) (r : WRef) (h : w1.metas = w2.metas
 
 variable (c : Cfg) (w : World) (self wc : Option Id)
 
-theorem execOp_weakH_setw (n : NRef) (i : Nat) (ws : WSel) (hc : Counts w) (h : WeakH w [])
+theorem execOp_weakH_setw (n : NRef) (i : Nat) (ws : WSel) (hc : Counts w) (h : WeakH ex w [])
     (hself : ∀ s, self = some s → s < w.next) (hwc : ∀ x, wc = some x → x ∈ cycs w.stack) :
-    WeakH (execOp c w self wc (.setw n i ws)) [] := by
+    WeakH ex (execOp c w self wc (.setw n i ws)) [] := by
   simp only [execOp]
   split
   · wneutral h
@@ -44,15 +46,15 @@ theorem execOp_weakH_setw (n : NRef) (i : Nat) (ws : WSel) (hc : Counts w) (h : 
             (by simpa using h2) htlt
             (fun z => by
               have := wslots_set_count (w.heap t).wslots i (some x) old z hold
-              simpa using Nat.le_of_eq this) rfl rfl
+              simpa using this) rfl rfl
           cases old with
           | none => exact WeakH.ret (E := []) h3 _
           | some y => exact (WeakH.weakDrop (by simpa using h3)).ret _
       · wneutral h
     · wneutral h
 
-theorem execOp_weakH_clrw (n : NRef) (i : Nat) (hc : Counts w) (h : WeakH w [])
-    (hself : ∀ s, self = some s → s < w.next) : WeakH (execOp c w self wc (.clrw n i)) [] := by
+theorem execOp_weakH_clrw (n : NRef) (i : Nat) (hc : Counts w) (h : WeakH ex w [])
+    (hself : ∀ s, self = some s → s < w.next) : WeakH ex (execOp c w self wc (.clrw n i)) [] := by
   simp only [execOp]
   split
   · wneutral h
@@ -65,24 +67,24 @@ theorem execOp_weakH_clrw (n : NRef) (i : Nat) (hc : Counts w) (h : WeakH w [])
             (by simpa using h) htlt
             (fun z => by
               have := wslots_set_count (w.heap t).wslots i none (some y) z hy
-              simpa using Nat.le_of_eq this) rfl rfl
+              simpa using this) rfl rfl
         exact (WeakH.weakDrop (by simpa using h3)).ret _
       · wneutral h
     · wneutral h
 
-theorem execOp_weakH_unwrap (k : Nat) (h : WeakH w []) : WeakH (execOp c w self wc (.unwrap k)) [] := by
+theorem execOp_weakH_unwrap (k : Nat) (h : WeakH ex w []) : WeakH ex (execOp c w self wc (.unwrap k)) [] := by
   simp only [execOp]
   split
   · rename_i x hx
     split
     · wneutral h
-    · have h1 : WeakH (((w.setH k none).removeFromList x).upd x fun o => { o with valLive := false }) [] := by wneutral h
+    · have h1 : WeakH ex (((w.setH k none).removeFromList x).upd x fun o => { o with valLive := false }) [] := by wneutral h
       have h2 := h1.freeStep c x
       wneutral h2
   · wneutral h
 
-theorem execOp_weakH_downN (r : CRef) (n : Nat) (hc : Counts w) (hi : Inv w) (h : WeakH w [])
-    (hself : ∀ s, self = some s → s < w.next) : WeakH (execOp c w self wc (.downN r n)) [] := by
+theorem execOp_weakH_downN (r : CRef) (n : Nat) (hc : Counts w) (hi : Inv w) (h : WeakH ex w [])
+    (hself : ∀ s, self = some s → s < w.next) : WeakH ex (execOp c w self wc (.downN r n)) [] := by
   simp only [execOp]
   split
   · wneutral h
@@ -99,14 +101,14 @@ theorem execOp_weakH_downN (r : CRef) (n : Nat) (hc : Counts w) (hi : Inv w) (h 
         · have h2 := (h1.incr x n hl hxlt').removeFromList x
           exact h2.toStash _
         · split
-          · have h2 : WeakH (w.initMeta x) (List.replicate (c.weakMax - ((w.initMeta x).metas x).weak) x ++ []) := by
+          · have h2 : WeakH ex (w.initMeta x) (List.replicate (c.weakMax - ((w.initMeta x).metas x).weak) x ++ []) := by
               rename_i h0; rw [h0]; simpa using h1
             exact (h2.toStash (w.initMeta x).ret).raise
           · have h2 := (h1.incr x (c.weakMax - ((w.initMeta x).metas x).weak) hl hxlt').removeFromList x
             exact (h2.toStash _).raise
     · wneutral h
 
-theorem execOp_weakH_wdropN (r : CRef) (n : Nat) (h : WeakH w []) : WeakH (execOp c w self wc (.wdropN r n)) [] := by
+theorem execOp_weakH_wdropN (r : CRef) (n : Nat) (h : WeakH ex w []) : WeakH ex (execOp c w self wc (.wdropN r n)) [] := by
   simp only [execOp]
   split
   · wneutral h
@@ -136,9 +138,9 @@ theorem execOp_weakH_wdropN (r : CRef) (n : Nat) (h : WeakH w []) : WeakH (execO
     · wneutral h
 
 /-- **Every operation preserves the weak invariant** (the stack clause is `execOp_wcOk`). -/
-theorem execOp_weakH (op : Op) (hc : Counts w) (hi : Inv w) (h : WeakH w [])
+theorem execOp_weakH (op : Op) (hc : Counts w) (hi : Inv w) (h : WeakH ex w [])
     (hself : ∀ s, self = some s → s < w.next) (hwc : ∀ x, wc = some x → x ∈ cycs w.stack) :
-    WeakH (execOp c w self wc op) [] := by
+    WeakH ex (execOp c w self wc op) [] := by
   cases op with
   | unwrap k => exact execOp_weakH_unwrap c w self wc k h
   | down r k => exact execOp_weakH_down c w self wc r k hc hi h hself
